@@ -7,6 +7,9 @@ Model of how a server block's directive lines take effect (C09).
     parse time (`parseLines`, `tokensOf`).
   * httpserver/plugin.go `InspectServerBlocks`: adds a bare `errors` directive to a block that has
     `gzip` but no `errors` (`inspect`).
+  * casket.go `executeDirectives` also runs the parsing callbacks registered after a directive
+    (`RegisterParsingCallback(serverType, dir, f)`: root → hideCasketfile, tls → activateHTTPS) right
+    after that directive's setups of all blocks (`execEvents`, `Event.cb`).
   * casket.go `executeDirectives`: outer loop over the server type's directive list, then over
     the server blocks, then over the block's keys; the setup function of a directive runs iff the
     block has tokens for it, and receives all of them (`execSeq`).
@@ -81,6 +84,24 @@ def execSeq : List Dir → List Block → List Call
   | [], _ => []
   | d :: ds, blocks => callsForBlocks d 0 blocks ++ execSeq ds blocks
 
+/-- what `executeDirectives` does, in order: setup calls, and — on a real start — the parsing
+callbacks: `parsingCallbacks[serverType][dir]` run right after the loop over the blocks for `dir`,
+whether or not any block uses `dir` (`cbs d`: a callback is registered after `d`) -/
+inductive Event where
+  | setup (c : Call)
+  | cb (dir : Dir)
+deriving Repr, DecidableEq
+
+def Event.dir : Event → Dir
+  | .setup c => c.dir
+  | .cb d => d
+
+/-- `executeDirectives` with `justValidate = false` -/
+def execEvents (cbs : Dir → Bool) : List Dir → List Block → List Event
+  | [], _ => []
+  | d :: ds, blocks =>
+    (callsForBlocks d 0 blocks).map Event.setup ++ (if cbs d then [Event.cb d] else []) ++ execEvents cbs ds blocks
+
 /-- the middleware list of site (block `i`, key `j`): one entry per setup call of a directive
 that adds a handler, in call order (`AddMiddleware` appends) -/
 def siteMiddleware (adds : Dir → Bool) (calls : List Call) (i j : Nat) : List Dir :=
@@ -114,6 +135,12 @@ def middlewareDirectives : List Dir :=
    "markdown", "browse"]
 
 def addsMiddleware (d : Dir) : Bool := middlewareDirectives.contains d
+
+/-- position of an event in the documented schedule: the setups of the directive at list position
+`i` have rank `2i`, its parsing callback rank `2i+1` -/
+def rank (D : List Dir) : Event → Nat
+  | .setup c => 2 * idx D c.dir
+  | .cb d => 2 * idx D d + 1
 
 /-- the handler chain (outside in) of a one-site block with directive lines `ls` -/
 def chainOf (D : List Dir) (ls : List Line) : List Dir :=
